@@ -1,9 +1,8 @@
 package main
 
 import (
-	"go/types"
-	"go/token"
 	"fmt"
+	"os"
 
 	"golang.org/x/tools/go/ssa"
 )
@@ -14,11 +13,12 @@ func init() {
 		"(R2) IssueSCT and the response writer are unreachable on every fault edge (must-pass-through of each success test); "+
 		"(R3) buildV1SCT signs SHA-256 of SerializeSCTSignatureInput over the leaf's timestamp/extensions/entry, and the returned SCT carries those same fields, the log ID of the signer's public key and the algorithm pair (SHA256, key's algorithm); "+
 		"(R4) GetCTLogID = SHA-256 of the PKIX public key; the JSON response copies the fields of the SCT buildV1SCT returned (handed over untouched) and carries that ID — recomputed from the log's signer, or read from the LogID of that very SCT, which buildV1SCT set from GetCTLogID(signer.Public()) on every success return; "+
-		"(R5) the backend leaf is {LeafValue = tls.Marshal(merkle leaf), LeafIdentityHash = SHA-256 of the leaf certificate DER, ExtraData = chain structure for the entry type}; "+
-		"(R6) the whole validated path (root included) is raw[0], raw[1:] with raw[i] = chain[i].Raw; "+
+		"(R5) the backend leaf is {LeafValue = tls.Marshal(merkle leaf), LeafIdentityHash = SHA-256 of the leaf certificate DER, ExtraData = chain structure for the entry type}; which structure, as a table over (chain nil?, chain hash nil?) for every combination the callers of buildLogLeaf can produce, however the selection is spelled: no chain hash ⇒ the chain structure over the chain given, nil or not (a certificate without issuers is stored as the empty chain), a chain hash and no chain ⇒ the hash structure, both ⇒ either; "+
+		"(R6) the chain service hands the whole validated path (root included) to the leaf builder: cert = ASN1Cert{Data: chain[0].Raw} and a list of len(chain) − 1 issuers whose element k is ASN1Cert{Data: chain[k+1].Raw} — decided on list images (make + one indexed store per round of a counting loop, or exactly one append per round to a list that starts empty, or a module helper returning such an image of its parameter, or s[c:] of one; loop start, bound, index read and index written as affine forms of the loop's own counter; no early exit, no round without its element, the list not stored to or handed elsewhere before it is used), so a conversion of the whole chain resliced afterwards and a loop over chain[1:] are the same fact; "+
 		"(R7) MerkleTreeLeafFromChain: X509 ⇒ chain[0].Raw; precert ⇒ BuildPrecertTBS(chain[0].RawTBSCertificate, preIssuer) and SHA-256 of the final issuer's SPKI (chain[2] when chain[1] is a pre-issuer), unknown type ⇒ error; timestamps are ns/1e6; "+
-		"(R8) QueueLeaf / IssueSCT / buildV1SCT / Signer.Sign have no other callers. "+
-		"NOT covered: that signatures verify (crypto), the derived entry for all PKI shapes (structural part in C03/C04), backend de-duplication.",
+		"(R8) QueueLeaf / IssueSCT / buildV1SCT / Signer.Sign have no other callers; "+
+		"(R12) the entry is derived from the data that was validated: from verifyAddChain's return (for the submitted bytes: from ParseBodyAsJSONChain's) until the last call from which the LogLeaf handed to QueueLeaf is computed, nothing writes the validated chain, the certificates it points to or their byte strings — no store, no append to a shortened view (s[:0], s[i:j]), no copy/clear/delete, no library function that writes its argument (sort.Slice, slices.Reverse/DeleteFunc, …), no module function reached directly, through an interface (all module implementations), a function value or a function literal that does so to its parameter at any depth (parameter-mutation summaries, fixed point over the calls below addChainInternal) — and the reading calls themselves only read it; likewise (R1) the leaf decoded from the backend's reply between its decode and buildV1SCT, and (R5) the inputs of buildLogLeaf. Writes after the last read (and deferred ones) are allowed. "+
+		"NOT covered: that signatures verify (crypto), for R5 which structure wins when both a chain and a chain hash are handed in and what an empty non-nil hash selects, for R6 elements built by a helper per element or copied byte-wise (undecided, fails),  the derived entry for all PKI shapes (structural part in C03/C04), backend de-duplication; for R12: writes through reflect/unsafe, through references retained in memory that outlives a call (a field of a parameter, a global, a channel) and by library functions not known to write their arguments; data races with goroutines started elsewhere.",
 		runC01)
 }
 
@@ -196,34 +196,12 @@ func runC01(r *Run) {
 	c01LogLeaf(r)
 
 	r.Rule("C01.R6")
-	if fn := r.Fn("(*trillian/ctfe.directIssuanceChainService).BuildLogLeaf"); fn != nil {
-		if c := r.OneCall(fn, "direct.BuildLogLeaf", "trillian/util.BuildLogLeaf"); c != nil {
-			r.ExpectArg(c, "direct.BuildLogLeaf:merkleLeaf", 1, "*p4")
-			r.ExpectArg(c, "direct.BuildLogLeaf:cert", 3, "trillian/ctfe.extractRawCerts(p2)[0]")
-			r.ExpectArg(c, "direct.BuildLogLeaf:chain", 4, "trillian/ctfe.extractRawCerts(p2)[1:]")
-			r.ExpectArg(c, "direct.BuildLogLeaf:isPrecert", 5, "p5")
-		}
-		if c := r.OneCall(fn, "direct.extractRawCerts", "trillian/ctfe.extractRawCerts"); c != nil {
-			r.ExpectArg(c, "direct.extractRawCerts:chain", 0, "p2")
-		}
-		r.ErrorsGate(fn, "direct.BuildLogLeaf:errors", "trillian/util.BuildLogLeaf", 1)
-	}
-	if fn := r.Fn("trillian/ctfe.extractRawCerts"); fn != nil {
-		r.ExpectStores(fn, "extractRawCerts:data", "&(new:ct.ASN1Cert#0.Data)", "p0[it@*].Raw", 1)
-		// element i of the result is {Data: chain[i].Raw} for every i and nothing else: filled by index into a
-		// slice of len(chain) elements, or appended — exactly once per round — to a list that starts empty
-		if why := c01AppendedPerElement(fn); why == "" {
-			r.Pass("extractRawCerts:elem", r.FnPos(fn), "one element is appended in every round of the loop over the chain, to a list that starts empty")
-			r.ExpectStores(fn, "extractRawCerts:elem.value", "&(new:[1]ct.ASN1Cert#0[0])", "*new:ct.ASN1Cert#0", 1)
-			for _, ret := range Returns(fn) {
-				r.Pass("extractRawCerts:result", r.Where(ret), "returns the appended list: "+r.D.D(ret.Results[0]))
-			}
-		} else if len(CallsTo(fn, "append")) > 0 {
-			r.Fail("extractRawCerts:elem", r.FnPos(fn), "the result is built by append, but not as one element per certificate: "+why)
-		} else {
-			r.ExpectStores(fn, "extractRawCerts:elem", "&(make:[]ct.ASN1Cert(len(p0))[it@*])", "*new:ct.ASN1Cert#0", 1)
-			for _, ret := range Returns(fn) {
-				r.Check("extractRawCerts:result", r.D.D(ret.Results[0]) == "make:[]ct.ASN1Cert(len(p0))", r.Where(ret), "returns a slice of len(chain) elements: "+r.D.D(ret.Results[0]))
+	c01ChainHandedOn(r)
+
+	if os.Getenv("CTVERIF_C01_DEBUG") != "" { // dev aid: the obligations of R5 / R6
+		for _, o := range r.Obls {
+			if o.Rule == "C01.R5" || o.Rule == "C01.R6" {
+				fmt.Fprintf(os.Stderr, "%v %s @%s: %s\n", o.OK, o.Key, o.Where, o.Detail)
 			}
 		}
 	}
@@ -233,6 +211,9 @@ func runC01(r *Run) {
 
 	r.Rule("C01.R8")
 	c01Who(r)
+
+	// the validated values stay unwritten until the entry has been derived from them (rules_t7c01chain.go)
+	c01ValidatedUnwritten(r)
 
 	// "carries the validated chain (root included)": the chain handed on is the verified path that
 	// was compared, certificate by certificate, with the submission (rule sets of C02)
@@ -255,6 +236,23 @@ func runC01(r *Run) {
 			c03Build(r, fn)
 		}
 	})
+}
+
+// c01ChainHandedOn (C01.R6, also run as part of C06.R11): the chain service hands the whole validated path to the leaf builder.
+func c01ChainHandedOn(r *Run) {
+	if fn := r.Fn("(*trillian/ctfe.directIssuanceChainService).BuildLogLeaf"); fn != nil {
+		if c := r.OneCall(fn, "direct.BuildLogLeaf", "trillian/util.BuildLogLeaf"); c != nil {
+			r.ExpectArg(c, "direct.BuildLogLeaf:merkleLeaf", 1, "*p4")
+			// cert = {Data: chain[0].Raw}, issuers = {Data: chain[k+1].Raw} for every k — however they are put together (rules_t8c01.go)
+			c01WholePath(r, fn, c, "direct.BuildLogLeaf", 3, 4)
+			r.ExpectArg(c, "direct.BuildLogLeaf:isPrecert", 5, "p5")
+		}
+		r.ErrorsGate(fn, "direct.BuildLogLeaf:errors", "trillian/util.BuildLogLeaf", 1)
+	}
+	// the helper that converts a whole chain (where the chain services use one; C14 relies on it too)
+	if fn := r.P.Func("trillian/ctfe.extractRawCerts"); fn != nil && len(fn.Blocks) > 0 {
+		c01ConvertsWhole(r, fn, "extractRawCerts:every-certificate")
+	}
 }
 
 func c01Leaf(r *Run) {
@@ -397,17 +395,15 @@ func c01ReturnedLeaf(r *Run, fn *ssa.Function) {
 		}
 		r.Check("addChainInternal:sct-from-returned-leaf", ok && glob("iface(trillian.TrillianLogClient).QueueLeaf(*)#0.QueuedLeaf.Leaf.LeafValue", src), r.Where(build),
 			fmt.Sprintf("buildV1SCT's leaf is the MerkleTreeLeaf decoded by tls.Unmarshal from %q (must be the backend's QueuedLeaf.Leaf.LeafValue)", src))
-		// nothing else writes that leaf between decode and use
+		// nothing writes that leaf between decode and use, and buildV1SCT only reads it (rules_t7c01chain.go)
 		if a != nil {
-			n := 0
-			for _, ref := range *a.Referrers() {
-				switch ref.(type) {
-				case *ssa.DebugRef:
-				default:
-					n++
+			var decodes []ssa.CallInstruction
+			for _, u := range unm {
+				if baseAlloc(CallArgs(u)[1]) == a {
+					decodes = append(decodes, u)
 				}
 			}
-			r.Check("addChainInternal:returned-leaf-untouched", n == 2, r.Where(build), fmt.Sprintf("the decoded leaf has %d uses (decode + buildV1SCT expected)", n))
+			c01ReturnedLeafUnwritten(r, fn, a, build, decodes)
 		}
 		r.ExpectArg(build, "addChainInternal:signer", 0, "p1.signer")
 		_ = unmCall
@@ -462,16 +458,16 @@ func c01LogLeaf(r *Run) {
 				"LeafIndex":        in["leafIndex"],
 				"ExtraData":        "phi(" + forChain + "|" + forHash + ")",
 			})
+			// which of the two it is, for every combination of chain / chain hash the callers can produce (rules_t8c01.go)
 			for _, st := range r.StoresTo(fn, "&("+r.D.allocName(baseAlloc(ret.Results[0]))+".ExtraData)") {
-				gotNil := r.ValueUnder(fn, st.Val, Sigma{"nil?" + hash: "nil"})
-				gotHash := r.ValueUnder(fn, st.Val, Sigma{"nil?" + hash: "non"})
-				r.Check("buildLogLeaf:extra[no-hash]", gotNil == forChain, r.Where(st), "chainHash == nil ⇒ ExtraData ← "+gotNil)
-				r.Check("buildLogLeaf:extra[hash]", gotHash == forHash, r.Where(st), "chainHash != nil ⇒ ExtraData ← "+gotHash)
+				c01ExtraForm(r, fn, st, in["chain"], hash, forChain, forHash)
 			}
 		}
 	}
 	if fn != nil {
 		r.ErrorsGate(fn, "buildLogLeaf:errors", "*", 2)
+		// … and neither buildLogLeaf nor a function it calls writes through one of them (rules_t7c01chain.go)
+		c01InputsUnwritten(r, fn, "buildLogLeaf:inputs-unwritten")
 	}
 	if fn := r.Fn("trillian/util.ExtraDataForChain"); fn != nil {
 		// what is established: with isPrecert the function returns tls.Marshal of a PrecertChainEntry, without it
@@ -501,87 +497,4 @@ func c01LogLeaf(r *Run) {
 		r.ExpectStores(fn, "ExtraDataForChain:x509.chain", "&(new:ct.CertificateChain#0.Entries)", "p1", 1)
 	}
 
-}
-
-// c01AppendedPerElement: every return of fn hands back a list that is empty before a loop ranging over the whole
-// of parameter 0 and receives exactly one single-element append in every round ("" when so, else why not).
-func c01AppendedPerElement(fn *ssa.Function) string {
-	rets := Returns(fn)
-	if len(rets) == 0 || len(fn.Params) == 0 {
-		return "no return"
-	}
-	for _, ret := range rets {
-		ph, ok := ret.Results[0].(*ssa.Phi)
-		if !ok {
-			return "the result is not a list carried round a loop"
-		}
-		H := ph.Block()
-		// H: if it < len(p0), the counter starting at 0 / range index
-		ifs, ok := H.Instrs[len(H.Instrs)-1].(*ssa.If)
-		if !ok || len(H.Succs) != 2 {
-			return "the list is not merged at a loop head"
-		}
-		cmp, ok := ifs.Cond.(*ssa.BinOp)
-		if !ok || cmp.Op != token.LSS {
-			return "the loop is not bounded by a length"
-		}
-		ln, ok := cmp.Y.(*ssa.Call)
-		if !ok || len(ln.Call.Args) != 1 || ln.Call.Args[0] != ssa.Value(fn.Params[0]) {
-			return "the loop does not range over the whole chain"
-		}
-		if b, isB := ln.Call.Value.(*ssa.Builtin); !isB || b.Name() != "len" {
-			return "the loop does not range over the whole chain"
-		}
-		body := H.Succs[0]
-		var app *ssa.Call
-		for i, e := range ph.Edges {
-			pred := H.Preds[i]
-			inLoop := body.Dominates(pred)
-			if !inLoop {
-				switch x := e.(type) {
-				case *ssa.Const:
-					if !x.IsNil() {
-						return "the list does not start empty"
-					}
-				case *ssa.MakeSlice:
-					if !isConstInt(x.Len, 0) {
-						return "the list does not start empty"
-					}
-				default:
-					return "the list does not start empty"
-				}
-				continue
-			}
-			c, ok := e.(*ssa.Call)
-			if !ok {
-				return "a round ends without appending"
-			}
-			if b, isB := c.Call.Value.(*ssa.Builtin); !isB || b.Name() != "append" || len(c.Call.Args) != 2 || c.Call.Args[0] != ssa.Value(ph) {
-				return "a round does not append to the list so far"
-			}
-			sl, ok := c.Call.Args[1].(*ssa.Slice)
-			if !ok {
-				return "more than one element may be appended"
-			}
-			arr, ok := sl.X.(*ssa.Alloc)
-			if !ok {
-				return "more than one element may be appended"
-			}
-			at, ok := arr.Type().(*types.Pointer).Elem().Underlying().(*types.Array)
-			if !ok || at.Len() != 1 {
-				return "not exactly one element is appended"
-			}
-			if app != nil && app != c {
-				return "two appends in one round"
-			}
-			app = c
-			if !c.Block().Dominates(pred) {
-				return "a round can end without the append"
-			}
-		}
-		if app == nil {
-			return "no append in the loop"
-		}
-	}
-	return ""
 }
